@@ -732,8 +732,9 @@ class Integer(Atomic, CommonMath):
             raise TypeError("invalid constructor datatype")
 
     def encode(self, tag):
-        # rip apart the number
-        data = bytearray(struct.pack('>I', self.value & 0xFFFFFFFF))
+        # rip apart the number, values that do not fit 32 bits are refused
+        # (struct.error) rather than silently wrapped
+        data = bytearray(struct.pack('>l', self.value))
 
         # reduce the value to the smallest number of bytes, be
         # careful about sign extension
